@@ -47,6 +47,8 @@ var Captures = map[string][]Datagram{
 	"P0.pcap": {{0, true, -1000, "early"}},
 	// a valid capture without packets
 	"EMPTY.pcap": {},
+	// P5 = {d}: a new stream that matches none of the port-1 tags
+	"P5.pcap": {{3, false, 4000, "dns2"}},
 }
 
 // RawCaptures are written byte for byte: files the importer cannot read.  An import job whose first
